@@ -1,6 +1,7 @@
 import Bec2Verif.Lemmas.Bec2
 import Bec2Verif.Props.C01
 import Bec2Verif.Props.C16
+import Bec2Verif.Lemmas.P256Laws
 /-!
 # C02 — BEC2 write-then-read recovers key, auth blocks and content for every key
 
@@ -75,6 +76,18 @@ theorem bec2_read_write_aes (E : Ecc) (hE : EccLaws E) (sha : Bytes → Bytes)
       (readBackAll aesCrypto f.key f.comps).map (fun cs => { comps := cs, blocks := f.blocks, key := f.key }) :=
   bec2_read_write { C := aesCrypto, E := E, sha := sha } Props.C16.aes_plugin_instance.1 hE
     Props.C16.aes_plugin_instance.2 f ext ephs ephs' out chk hsk hne hopen hnd hok h
+
+/-- **the shipped configuration** (bundled AES, ECC plug-in on P-256, SHA-256): the file theorem with every named
+hypothesis discharged -/
+theorem bec2_read_write_shipped
+    (f : File) (ext : List Encryptor) (ephs ephs' : List Nat) (out : Bytes) (chk : Bool)
+    (hsk : f.key.length = 16) (hne : f.blocks ≠ []) (hopen : ∀ b ∈ f.blocks, Opens ext b)
+    (hnd : (f.blocks.map AuthBlock.tag).Nodup) (hok : ∀ c ∈ f.comps, CompOK P256.env.C f.key c)
+    (h : Bec2.toBinary P256.env f ext ephs = .ok (out, ephs')) :
+    Bec2.readBinary P256.env ext chk out =
+      (readBackAll P256.env.C f.key f.comps).map (fun cs => { comps := cs, blocks := f.blocks, key := f.key }) :=
+  bec2_read_write P256.env Props.C16.aes_plugin_instance.1 P256C.p256_eccLaws Props.C16.aes_plugin_instance.2
+    f ext ephs ephs' out chk hsk hne hopen hnd hok h
 
 /-- non-vacuity: a decryptor list that opens a customer-key, an ECC (selector 2) and an update block -/
 example : ∀ b ∈ [AuthBlock.initCust, .initEcc 2, .update [1,2,3,4,5,6,7,8] 255],
